@@ -266,6 +266,11 @@ def gains_bounded_instance():
             dead = rng.rand(F, N) < 0.12
             dead[:, :6] = False
             y = np.where(dead[..., None], 0.0, y)
+        single = (inp['seed'] // 17) % 3 == 0 and hi <= 1e3 and lo >= 1e-3 and which not in ('bingham', 'cbmm')
+        if single:
+            # single-precision STFT (gains inside the range of the type; the comparison tolerance is that of the type)
+            y = y.astype(np.float32 if real else np.complex64)
+            c = c.astype(np.float32 if real else np.complex64)
         emb = rng.normal(size=(F, N, 4))
         ce = np.exp(rng.uniform(np.log(lo), np.log(hi), size=(F, N, 1)))
         init = np.moveaxis(rng.dirichlet(np.ones(K), size=(F, N)), -1, -2).copy()
@@ -323,13 +328,14 @@ def gains_bounded_instance():
             m = VonMisesFisherTrainer().fit(yy, saliency=sal)
             return [m.mean, np.asarray(m.concentration), m.log_pdf(yy)]
         with np.errstate(all='ignore'):
-            return {'base': run(y, emb), 'scaled': run(c * y, ce * emb)}
+            return {'base': run(y, emb), 'scaled': run(c * y, ce * emb), 'single': single}
 
     def ensures(sp, inp, out):
         for i, (a, b) in enumerate(zip(out['base'], out['scaled'])):
             a, b = np.asarray(a), np.asarray(b)
             yield 'finite[%d]' % i, bool(np.all(np.isfinite(a)) and np.all(np.isfinite(b)))
-            yield 'unchanged-under-per-frame-gains[%d]' % i, bool(a.shape == b.shape and np.allclose(a, b, rtol=1e-6, atol=1e-8))
+            tol = {'rtol': 2e-3, 'atol': 2e-4} if out.get('single') else {'rtol': 1e-6, 'atol': 1e-8}
+            yield 'unchanged-under-per-frame-gains[%d]%s' % (i, '[single]' if out.get('single') else ''), bool(a.shape == b.shape and np.allclose(a, b, **tol))
 
     return Instance('C04', DN + '*Trainer.fit', 'bounded-gains-1e-100..1e100', make, call, ensures, mode='bounded', bounded_n=100, frame=False)
 
